@@ -1601,6 +1601,13 @@ fn computation_translation(
         | Compu::Match(compu) => {
             let Match { scrut, arms } = compu;
             let (env, scrut_) = cs::TermLift { tm: scrut }.mbuild(tycker, env)?;
+            // Hint the translated scrutinee with its data type, as the match judgment does:
+            // the coverage validator needs it for a match without arms.
+            let scrut_ty = tycker.statics.annotations_value[&scrut_];
+            let scrut_view = scrut_ty.unroll(tycker)?.subst_env(tycker, &env.ty)?;
+            if let Type::Data(data) = tycker.type_filled(&scrut_view)?.to_owned() {
+                let _ = tycker.statics.data_hints.upsert(scrut_, data);
+            }
             let arms_ = arms
                 .into_iter()
                 .map(|Matcher { binder, tail }| {
